@@ -48,6 +48,7 @@ fn main() {
         "C16" => vcheck::checks::c16::run(tier, seed),
         "C15" => vcheck::checks::c15::run(tier, seed),
         "C18" => vcheck::checks::hchecks::c18(tier, seed),
+        "C19" => vcheck::checks::c19::run(tier, seed),
         "C09" => vcheck::checks::c09::run(tier, seed),
         "C13" => vcheck::checks::c13::run(tier, seed),
         _ => {
